@@ -434,6 +434,14 @@ WORKBOOKS_OPAQUE = {
                'B4': '=T[[#This Row],[x]]*2', 'C2': '=SUM(T[y])'},
         ranges={'B2:B4': [['B2'], ['B3'], ['B4']], 'A2:B4': [['A2', 'B2'], ['A3', 'B3'], ['A4', 'B4']]},
         extra_cells={'A1': 'x', 'B1': 'y', '__table__': ('T', 'A1:B4')}),
+    # formulas whose value is a reference (OFFSET / INDIRECT) to a formula cell
+    # nobody may have calculated yet, and a dependant of such a formula
+    'refval_opq': dict(
+        inputs={'B1': 1, 'A2': None},
+        formulas={'B2': ('Plus', ['B1'], 1), 'A1': ('Plus', ['B2'], 0),
+                  'C1': ('Plus', ['B2'], 0), 'D1': ('Plus', ['A1'], 1)},
+        texts={'A1': '=OFFSET(B1,1,0)', 'C1': '=INDIRECT("B2")'},
+        ranges={'A1:D1': [['A1', 'B1', 'C1', 'D1']], 'A1:B2': [['A1', 'B1'], ['A2', 'B2']]}),
 }
 WORKBOOKS_OBS['nested_obs']['ranges']['A2:D2'] = [['A2', 'B2', 'C2', 'D2']]
 
